@@ -189,27 +189,40 @@ def run(ctx):
         cov.case((host, cls, spec, rep["X"], mode, use_reset), absorbed)
         if i < 3:
             cov.sample({"host": host, "class": cls, "spec": spec, "n": n, "mode": mode, "categories": len(m.W)})
-    # FusionART channels hold what their module alone would compute: Fuzzy channels, beta = 1
-    for i in range(ctx.scale(40, 800)):
+    # FusionART channels hold what their module alone would compute (exact-summary clause per channel):
+    # Fuzzy (beta = 1), ART1 and Gaussian channels, streams with repeated rows and nested binary patterns
+    for i in range(ctx.scale(60, 1200)):
         r = gen.rng_for(ctx.seed, "C02-fusion", i)
-        fam, rows = families.build(r, "FusionART", r.randint(2, nmax))
-        if any(s["cls"] != "FuzzyART" for s in fam.spec["modules"]):
-            continue
-        for s in fam.spec["modules"]:
-            s["beta"] = 1.0
-        est = fam.make()
+        n = r.randint(2, nmax)
+        chans = [r.choice(["FuzzyART", "ART1", "GaussianART"]), r.choice(["FuzzyART", "ART1", "GaussianART", "FuzzyART"])]
+        ds = [r.randint(1, 3), r.randint(1, 2)]
+        sp = []
+        for c_, d_ in zip(chans, ds):
+            s_ = specs.elem_spec(r, c_, specs.width(c_, d_) if c_ != "FuzzyART" else d_)
+            if c_ == "FuzzyART":
+                s_["beta"] = 1.0
+            sp.append(s_)
+        spec = {"cls": "FusionART", "modules": sp, "gamma_values": r.choice([[0.5, 0.5], [0.25, 0.75]]),
+                "channel_dims": [specs.width(c_, d_) for c_, d_ in zip(chans, ds)]}
+        blocks = [specs.elem_data(r, c_, n, d_, style=r.choice(["dups", "coarse", "blobs"])) for c_, d_ in zip(chans, ds)]
+        X = np.hstack(blocks)
+        # repeated rows: the second presentation of a row hits its category's centre / template exactly
+        idx = list(range(n)) + [r.randrange(n) for _ in range(r.randint(1, n))]
+        X = X[idx]
         try:
-            fam.fit(est, rows)
+            est = make(spec)
+            with quiet():
+                est.fit(X, match_tracking=r.choice(MODES))
         except Exception as e:
             cov.hit(f"train-raised:FusionART:{exc_enum(e)}")
             continue
-        X = rows.arrs["X"]
         off = 0
         for k, mod in enumerate(est.modules):
-            wdt = fam.spec["channel_dims"][k]
-            exact_summary(ctx, "FuzzyART", mod, X[:, off:off + wdt], np.asarray(est.labels_),
-                          {"fusion": fam.spec, "X": X.tolist(), "channel": k}, f"FusionART.channel/")
+            wdt = spec["channel_dims"][k]
+            exact_summary(ctx, chans[k], mod, X[:, off:off + wdt], np.asarray(est.labels_),
+                          {"fusion": spec, "X": X.tolist(), "channel": k}, "FusionART.channel/")
             off += wdt
-        cov.case(("fusion", fam.spec, X.tolist()), True)
+        cov.case(("fusion", spec, X.tolist()), True)
+        cov.hit("fusion-channels:" + "+".join(chans))
     e2e.base_histories(ctx, "C02", ctx.scale(150, 3000), ctx.scale(20, 80), fields=("labels", "W"), with_pred=False)
     e2e.sphere_histories(ctx, "C02", ctx.scale(80, 2000), ctx.scale(16, 50))
